@@ -12,7 +12,8 @@ JSON_PTR_GETTERS = ("json_object_dotget_string", "json_object_get_string", "json
                     "json_object_dotget_object", "json_object_get_object", "json_object_dotget_array",
                     "json_object_get_array", "json_object_dotget_value", "json_object_get_value",
                     "json_value_get_object", "json_value_get_array", "json_array_get_object", "json_array_get_string",
-                    "json_array_get_value", "json_object_get_name", "json_object_get_value_at", "stream_metadata")
+                    "json_array_get_value", "json_object_get_name", "json_object_get_value_at", "json_string", "json_object",
+                    "json_array", "stream_metadata")
 STR_SINKS = {"strcmp": (0, 1), "strncmp": (0, 1), "strlen": (0,), "strcpy": (0, 1), "strncpy": (0, 1), "strdup": (0,),
              "memcpy": (0, 1), "__builtin___memcpy_chk": (0, 1), "__builtin___strcpy_chk": (0, 1),
              "__builtin___strncpy_chk": (0, 1), "strtol": (0,), "strtoll": (0,), "strtoul": (0,), "atoi": (0,), "atol": (0,),
@@ -52,11 +53,17 @@ def check_json_null_safety(ctx, rule):
                     return [PTR("ret:%s:%d" % (cal, e))]
                 return None
             sums = {n: mk_sink(n, ix) for n, ix in STR_SINKS.items()}
-            ex = absint.Explorer(prog, effects=eff, loop_bound=2, max_depth=3, max_paths=8000, summaries=sums,
-                                 on_unknown_call=unk)
-            try:
-                outs = ex.run(f, [PTR("ARG%d" % j) if p["ctype"].rstrip().endswith("*") else TOP for j, p in enumerate(f.params)], {DBG: INT(0)})
-            except AnalysisBroken:
+            outs = None
+            for lb in (2, 1):          # hash-table macros in inlined helpers multiply paths: one loop iteration is enough
+                del hits[:]
+                ex = absint.Explorer(prog, effects=eff, loop_bound=lb, max_depth=3, max_paths=8000, summaries=sums,
+                                     on_unknown_call=unk)
+                try:
+                    outs = ex.run(f, [PTR("ARG%d" % j) if p["ctype"].rstrip().endswith("*") else TOP for j, p in enumerate(f.params)], {DBG: INT(0)})
+                    break
+                except AnalysisBroken:
+                    outs = None
+            if outs is None:
                 continue
             reached = any(any(ev[0] == "call" and ev[3] == f.key and ev[4] == site for ev in o.events) for o in outs)
             if not reached:
